@@ -426,3 +426,57 @@ fn c08_clear_mac_commands_triples_9() {
     }
     kani::cover!(true, "verif-reached: all shapes done");
 }
+
+// ------------------------------------------------------------------------------------------------
+// Uplink::add_mac_command: from ANY queue (0..=15 arbitrary bytes) an answer is appended whole iff CID + payload
+// still fit into the 15 FOpts bytes, otherwise the queue is left alone; never a panic (C04: the network decides
+// how many requests a downlink carries, so the queue can be at any fill level when the next answer is added).
+fn add_contract<M: SerializableMacCommand>(cmd: M) {
+    let mut u = any_uplink();
+    let old = u.clone();
+    let cid = cmd.cid();
+    let l = cmd.payload_len();
+    let mut pay = [0u8; 4];
+    let mut i = 0;
+    while i < 4 { if i < l { pay[i] = cmd.payload_bytes()[i]; } i += 1; }
+    u.add_mac_command(cmd);
+    let n = old.pending.len();
+    if n + 1 + l <= FOPTS_MAX_LEN {
+        assert!(u.pending.len() == n + 1 + l && u.pending[n] == cid, "C08 answer appended: CID after the old queue");
+        let mut k = 0;
+        while k < FOPTS_MAX_LEN {
+            if k < n { assert!(u.pending[k] == old.pending[k], "C08 older answers untouched"); }
+            if k < l { assert!(u.pending[n + 1 + k] == pay[k], "C08 answer payload appended whole"); }
+            k += 1;
+        }
+    } else {
+        assert!(uplink_eq(&u, &old), "C08 an answer that does not fit whole leaves the queue unchanged (no partial command)");
+    }
+    assert!(u.confirmed == old.confirmed, "add_mac_command frame: ACK flag untouched");
+    kani::cover!(n + 1 + l == FOPTS_MAX_LEN, "verif-reached: exactly fills the queue");
+    kani::cover!(n + 1 + l == FOPTS_MAX_LEN + 1, "verif-reached: one byte too long");
+    kani::cover!(n == 0, "verif-reached: empty queue");
+}
+// @verif props=C04,C08 obligation=Uplink::add_mac_command.contract[payload 0] label=proved-complete tier=quick bound="every queue content and fill level 0..=15"
+#[kani::proof]
+#[kani::unwind(18)]
+fn c04_add_mac_command_len0() { tape::init(); add_contract(lorawan::maccommands::RXTimingSetupAnsCreator::new()) }
+// @verif props=C04,C08 obligation=Uplink::add_mac_command.contract[payload 1] label=proved-complete tier=quick bound="every queue content and fill level 0..=15, every answer byte"
+#[kani::proof]
+#[kani::unwind(18)]
+fn c04_add_mac_command_len1() {
+    tape::init();
+    let mut c = lorawan::maccommands::LinkADRAnsCreator::new();
+    c.set_channel_mask_ack(tape::boolean()).set_data_rate_ack(tape::boolean()).set_tx_power_ack(tape::boolean());
+    add_contract(c)
+}
+// @verif props=C04,C08 obligation=Uplink::add_mac_command.contract[payload 2] label=proved-complete tier=quick bound="every queue content and fill level 0..=15, every answer byte"
+#[kani::proof]
+#[kani::unwind(18)]
+fn c04_add_mac_command_len2() {
+    tape::init();
+    let mut c = lorawan::maccommands::DevStatusAnsCreator::new();
+    c.set_battery(tape::u8());
+    let _ = c.set_margin((tape::u8() % 64) as i8 - 32);
+    add_contract(c)
+}
